@@ -34,6 +34,10 @@ func Dump(repo *core.Repo, dir, only string) {
 	for _, p := range m.Pkgs {
 		prog := ir.LowerPackage(p)
 		n := ir.NewNormalizer()
+		if only == "KEEPSHARED" {
+			n.KeepShared = true
+			only = ""
+		}
 		for _, k := range []string{"MapL", "MapR", "PairL", "PairR"} {
 			if f, ok := prog.ByName[k]; ok {
 				n.Inline[f.Key] = f
